@@ -402,12 +402,6 @@ pub fn c03_at_k(tinf: &[Event], k: usize, outk: &Outcome) -> Result<(), Viol> {
                         format!("after the stop at decision {k}: [{}] does not hand over the error built by event {prev_idx}", show_event(ev)),
                     ));
                 }
-                if !is_prefix(loc, &prev_loc) {
-                    return Err((
-                        "C03|handover-not-climbing".into(),
-                        format!("after the stop at decision {k}: [{}] is not at or above {}", show_event(ev), path_str(&prev_loc)),
-                    ));
-                }
                 prev_idx = i;
                 prev_loc = loc.clone();
             }
@@ -459,12 +453,6 @@ pub fn c03_random(out: &Outcome) -> Result<(), Viol> {
                     return Err((
                         "C03|handover-of-something-else-after-stop".into(),
                         format!("[{}] answered Break, but the next event [{}] does not hand that error over", show_event(ev), show_event(&t[i + 1])),
-                    ));
-                }
-                if !is_prefix(l2, loc) {
-                    return Err((
-                        "C03|handover-not-climbing".into(),
-                        format!("[{}] answered Break, next hand-over [{}] is not at or above it", show_event(ev), show_event(&t[i + 1])),
                     ));
                 }
             }
